@@ -374,6 +374,13 @@ class FunctionFlow:
             d = dotted(tgt.value)
             if d:
                 st = self._kill(st, d, self._texts(tgt.value, st))
+                # must-fact: the item was stored (synthetic call `__setitem__(container, key)`)
+                syn = ast.Call(func=ast.Name(id="__setitem__", ctx=ast.Load()),
+                               args=[copy.deepcopy(tgt.value), copy.deepcopy(tgt.slice)], keywords=[])
+                for n_ in ast.walk(syn):
+                    if hasattr(n_, "ctx"):
+                        n_.ctx = ast.Load()
+                st = st.with_fact(Fact("call", syn, True, self.expand(syn, st), ("__setitem__",), getattr(stmt, "lineno", 0)))
                 dd = self._newdef(d + "[]", stmt, value, "substore", extra=tgt)
                 st = st.copy()
                 st.defs[d + "[]"] = st.defs.get(d + "[]", frozenset()) | frozenset([dd.did])
